@@ -151,6 +151,52 @@ func checkC07(c *core.Ctx) {
 			c07Stored(c, idx)
 		}
 	}
+	for idx := 0; idx < c.N(24, 300); idx++ {
+		if c.Mine(idx) {
+			c07SetRejected(c, idx)
+		}
+	}
+}
+
+// c07SetRejected: when the master refuses SET @master_binlog_checksum the
+// checksum awareness was not announced, so no dump may be requested on that
+// connection; the following attempt (SET accepted) must be normal again.
+func c07SetRejected(c *core.Ctx, idx int) {
+	scn := c07Scenario(c, 100000+idx)
+	scn.Attempts = scn.Attempts[:1]
+	empty := &hist.Layout{}
+	s, err := run.NewSession(empty, nil, scn.ServerID, scn.Attempts[0], idx%2 == 0)
+	if err != nil {
+		c.Inconclusive("cannot start master: " + err.Error())
+		return
+	}
+	defer s.Close()
+	for _, g := range run.LibGoroutines(nil) {
+		s.Abandon(g.ID)
+	}
+	code := []uint16{1193, 1317, 1053, 1227}[idx%4]
+	s.M.SetScripts(&sim.Script{SetReject: true, SetRejectCode: code, AnyPosEOF: true})
+	s.M.SetDefault(&sim.Script{AnyPosEOF: true})
+	res := s.Attempt(run.NoFaults(), nil, maxWait)
+	c.Case(core.Hash64([]byte(fmt.Sprint("setreject", scn, code))), true)
+	c.Cell("set-rejected")
+	if res.Verdict != run.Returned {
+		c.Cell("stream-not-returned(reported under C05)")
+		return
+	}
+	if res.DumpsMade > 0 {
+		c.Violation("c07:dump-after-rejected-set", fmt.Sprintf("the master answered SET @master_binlog_checksum with error %d, yet a binlog-dump request followed (Stream returned %s)", code, errStr(res.Err)),
+			witnessOf(map[string]interface{}{"mode": "set-rejected", "index": idx}, nil, s, nil))
+		return
+	}
+	s.CallError(maxWait)
+	res2 := s.Attempt(run.NoFaults(), nil, maxWait)
+	if res2.Verdict != run.Returned || res2.Conn == nil {
+		return
+	}
+	if key, msg := checkConnCommands(res2.Conn.Snapshot(), scn.ServerID, scn.Attempts[0]); key != "" {
+		c.Violation("c07:after-rejected-set:"+key, "attempt after a rejected SET: "+msg, witnessOf(map[string]interface{}{"mode": "set-rejected", "index": idx}, nil, s, nil))
+	}
 }
 
 func c07Run(c *core.Ctx, scn c07Scn) {
